@@ -294,6 +294,8 @@ def run(chk):
         h.check_result("MultByCofactor[receiver=%s]" % state, fname, paths, v, {"P": 8}, t0, [pnt.obj] if v != pnt else [])
     items += [("MultByCofactor alias", lambda: cof("alias")), ("MultByCofactor other", lambda: cof("other"))]
     run_kernels(chk, heavy + items)
+    from .common import settle_bounds
+    settle_bounds(chk, prog, [prog.find("Point)." + r) for r in ("ScalarMult", "ScalarBaseMult", "VarTimeDoubleScalarBaseMult", "MultiScalarMult", "VarTimeMultiScalarMult")])
     # replays
     groups = [("Element aliasing", lambda o: o.name.startswith("Element."), lambda: alias_battery(chk.seed)),
               ("Point.Add", lambda o: o.name.startswith("Point.Add["), lambda: ptreplay.battery_binary("P.Add", chk.seed, lambda p, q: ref.ed_add(p, q))),
